@@ -389,8 +389,8 @@ def corpus(ctx):
 
 def run(ctx, model_ok=True):
     corpus(ctx)
-    param_stream(ctx, ctx.n(900, 6000), model_ok)
-    explore(ctx, ctx.n(300, 4000))
+    param_stream(ctx, ctx.n(1200, 6000), model_ok)
+    explore(ctx, ctx.n(400, 4000))
 
 
 def search(ctx):
